@@ -19,30 +19,43 @@
 (*                                 distance initialised from the Darcy flux*)
 (*   "postignored" (a plausible regression): as "fixed", but a failure of  *)
 (*                                 the step after the loop leaves the status*)
+(*   "flagkept" (a plausible regression): as "fixed", but the status is an  *)
+(*                                 attribute of the solver OBJECT that only *)
+(*                                 ever gets set: a later run on the same   *)
+(*                                 object inherits it                       *)
+(* A solver object is called again and again (run = 1, 2, ...): every run   *)
+(* starts from LoopInit, nothing of the previous run is left.               *)
 (* The transition functions are shared by the model-checking spec below    *)
 (* and by Trace_SolverLoop, which steps them along recorded solver runs.   *)
 EXTENDS Integers, TLC
 
 LoopInit(rule) == [pc |-> "loop", iter |-> 0, cur |-> 0,
                    distOf |-> (IF rule = "asbuilt" THEN -1 ELSE 0),
-                   failedAt |-> -1, byCrit |-> FALSE, converged |-> FALSE, postFailed |-> FALSE]
-Status(rule, N, exitIter, byCriteria) == IF rule = "asbuilt" THEN exitIter < N - 1 ELSE byCriteria
+                   failedAt |-> -1, byCrit |-> FALSE, converged |-> FALSE, postFailed |-> FALSE, run |-> 1]
+\* a budget of no iterations at all: the run is over when it starts (the result is the initial guess, not converged)
+LoopStart(rule, N) == IF N = 0 THEN [LoopInit(rule) EXCEPT !.pc = "done"] ELSE LoopInit(rule)
+Status0(rule, N, exitIter, byCriteria) == IF rule = "asbuilt" THEN exitIter < N - 1 ELSE byCriteria
+Status(s, rule, N, exitIter, byCriteria) == IF rule = "flagkept" THEN s.converged \/ byCriteria ELSE Status0(rule, N, exitIter, byCriteria)
 IterEnabled(s, N) == s.pc = "loop" /\ s.iter < N
 \* iteration s.iter completes; met = the stopping criteria hold for the new iterate
 LoopIterOk(s, N, rule, met) ==
   LET t == [s EXCEPT !.cur = s.cur + 1, !.distOf = s.cur + 1] IN
   IF s.iter > 1 /\ met
-    THEN [t EXCEPT !.pc = "done", !.byCrit = TRUE, !.converged = Status(rule, N, s.iter, TRUE)]
+    THEN [t EXCEPT !.pc = "done", !.byCrit = TRUE, !.converged = Status(s, rule, N, s.iter, TRUE)]
   ELSE IF s.iter = N - 1
-    THEN [t EXCEPT !.pc = "done", !.converged = Status(rule, N, s.iter, FALSE)]
+    THEN [t EXCEPT !.pc = "done", !.converged = Status(s, rule, N, s.iter, FALSE)]
   ELSE [t EXCEPT !.iter = s.iter + 1]
 \* the inner linear solve of iteration s.iter raises
 LoopIterFail(s, N, rule) ==
-  [s EXCEPT !.failedAt = s.iter, !.pc = "done", !.converged = Status(rule, N, s.iter, FALSE)]
+  [s EXCEPT !.failedAt = s.iter, !.pc = "done", !.converged = Status(s, rule, N, s.iter, FALSE)]
 
 \* the step after the loop (only solvers that have one) raises: the iterate is kept, the run is not converged
 PostEnabled(s) == s.pc = "done" /\ s.failedAt = -1 /\ ~s.postFailed
 LoopPostFail(s, rule) == [s EXCEPT !.postFailed = TRUE, !.converged = IF rule = "postignored" THEN s.converged ELSE FALSE]
+
+\* the same solver object is called once more
+AgainEnabled(s, maxRuns) == s.pc = "done" /\ s.run < maxRuns
+LoopAgain(s, rule, N) == [LoopStart(rule, N) EXCEPT !.run = s.run + 1, !.converged = IF rule = "flagkept" THEN s.converged ELSE FALSE]
 
 ConvergedOnlyIfCriteriaS(s) == s.pc = "done" /\ s.converged => s.byCrit /\ s.failedAt = -1 /\ ~s.postFailed
 FaultFlaggedS(s) == s.pc = "done" /\ (s.failedAt # -1 \/ s.postFailed) => ~s.converged
@@ -50,13 +63,14 @@ DistanceOfReturnedS(s) == s.pc = "done" => s.distOf = s.cur
 ReturnedIsLastValidS(s) == s.pc = "done" /\ s.failedAt # -1 => s.cur = s.failedAt
 
 -----------------------------------------------------------------------------
-CONSTANTS NumIter, Rule
+CONSTANTS NumIter, Rule, MaxRuns
 VARIABLE s
-Init == s = LoopInit(Rule)
+Init == s = LoopStart(Rule, NumIter)
 Next == \/ /\ IterEnabled(s, NumIter)
            /\ \/ \E met \in BOOLEAN : s' = LoopIterOk(s, NumIter, Rule, met)
               \/ s' = LoopIterFail(s, NumIter, Rule)
         \/ /\ PostEnabled(s) /\ s' = LoopPostFail(s, Rule)
+        \/ /\ AgainEnabled(s, MaxRuns) /\ s' = LoopAgain(s, Rule, NumIter)
 Spec == Init /\ [][Next]_s
 ConvergedOnlyIfCriteria == ConvergedOnlyIfCriteriaS(s)
 FaultFlagged == FaultFlaggedS(s)
